@@ -459,7 +459,7 @@ class ProgGen:
                     + self.tag("endif") + "." + self.tag("endtablerow"))
         e = self.loop_expr().replace(" reversed", "")
         if r.random() < 0.6:
-            e += f" cols: {r.choice(['2', '3', 'n', 'm'])}"
+            e += f" cols: {r.choice(['2', '3', 'n', 'm', '2', '3', 'n', 'm', '0', 'ghost', 's', 'nothing', '1'])}"
         body = self.block(depth + 1, 1) + self.out(r.choice(["tablerowloop.col", "tablerowloop.row",
                                                               "tablerowloop.col_last", "item"]))
         if r.random() < 0.35:
